@@ -42,49 +42,58 @@ D == INSTANCE PegDen WITH Nodes <- Nodes, W <- W
 
 NoExc == [who |-> 0, at |-> 0, cls |-> 0]
 N == Len(W)
-FullVis == Cfg.cf \in {3, 4}
-HasUnw  == Cfg.cf \in {2, 4}
+\* the control family is a property of the invocation: control< C, R > switches it for a sub-tree
+FullVis(f) == f.cf \in {3, 4}
+HasUnw(f)  == f.cf \in {2, 4}
 PosCtx == [eol |-> Cfg.eol, ib |-> Cfg.ib, il |-> Cfg.il, ic |-> Cfg.ic]
 
-Enabled(n) == FullVis \/ Nodes[n].en = 1
+Enabled(f) == FullVis(f) \/ Nodes[f.n].en = 1
 AKindOf(n, af) == D!AKind(n, af)
 
 \* events, in the field layout of harness/vtrace.hpp
 Cur3(o) == [b |-> D!PosByte(o, PosCtx), l |-> D!PosLine(o, PosCtx), c |-> D!PosCol(o, PosCtx)]
-EvEn(n, A, M, af, o) == [k |-> "en", r |-> n, A |-> A, M |-> M, b |-> Cur3(o).b, l |-> Cur3(o).l, c |-> Cur3(o).c, o |-> o, e |-> N,
-                          af |-> af, cf |-> Cfg.cf, d |-> -1, s |-> 0]
+EvEn(n, A, M, af, cf, o) == [k |-> "en", r |-> n, A |-> A, M |-> M, b |-> Cur3(o).b, l |-> Cur3(o).l, c |-> Cur3(o).c, o |-> o, e |-> N,
+                          af |-> af, cf |-> cf, d |-> -1, s |-> 0]
 EvEx(n, v, o) == [k |-> "ex", r |-> n, v |-> v, b |-> Cur3(o).b, l |-> Cur3(o).l, c |-> Cur3(o).c, o |-> o, e |-> N, d |-> -1]
 EvXc(n, cls, o) == [k |-> "xc", r |-> n, x |-> cls, b |-> Cur3(o).b, l |-> Cur3(o).l, c |-> Cur3(o).c, o |-> o, e |-> N, d |-> -1]
-EvHook(k, n, o) == [k |-> k, r |-> n, b |-> Cur3(o).b, l |-> Cur3(o).l, c |-> Cur3(o).c, o |-> o, e |-> N, cf |-> Cfg.cf]
+EvHook(k, n, cf, o) == [k |-> k, r |-> n, b |-> Cur3(o).b, l |-> Cur3(o).l, c |-> Cur3(o).c, o |-> o, e |-> N, cf |-> cf]
 EvAp(n, af, beg, o, v) == [k |-> "ap", r |-> n, af |-> af, b |-> Cur3(beg).b, l |-> Cur3(beg).l, c |-> Cur3(beg).c, o |-> beg, eo |-> o,
                             n |-> o - beg, io |-> o, v |-> v, s |-> 0]
 EvA0(n, af, o, v) == [k |-> "a0", r |-> n, af |-> af, io |-> o, v |-> v, s |-> 0]
+\* actions listed in if_apply / apply / apply0 are called by the rule itself (internal/apply_single.hpp), they log themselves
+EvIa(n, beg, o, v) == [k |-> "ia", n |-> n, b |-> Cur3(beg).b, l |-> Cur3(beg).l, c |-> Cur3(beg).c, o |-> beg, eo |-> o, v |-> v]
+EvI0(n, v) == [k |-> "i0", n |-> n, v |-> v]
+\* ( apply_single< Actions >::match( i2, st... ) && ... ): in order, up to and including the first that returns false
+IaEvents(pp, beg, end, zero) ==
+   [i \in 1..D!IaCalled(pp, end - beg, zero) |->
+      LET v == IF pp[2*i-1] = 1 THEN 0 ELSE IF D!IaTrue(pp[2*i-1], pp[2*i], end - beg, zero) THEN 1 ELSE 2
+      IN IF zero THEN EvI0(pp[2*i], v) ELSE EvIa(pp[2*i], beg, end, v)]
 
 \* a frame: node, apply mode, requested rewind mode, action family, program counter, loop index,
 \* sv: cursor saved by the rule's own guard (-1 none), mg: cursor saved by match()'s guard (-1 none), av: action result
-Frame(n, A, M, af) == [n |-> n, A |-> A, M |-> M, af |-> af, pc |-> "enter", i |-> 0, lp |-> 0, sv |-> -1, mg |-> -1, entry |-> -1]
+Frame(n, A, M, af, cf) == [n |-> n, A |-> A, M |-> M, af |-> af, cf |-> cf, pc |-> "enter", i |-> 0, lp |-> 0, sv |-> -1, mg |-> -1, entry |-> -1]
 
 Top == fr[Len(fr)]
 SetTop(f) == [fr EXCEPT ![Len(fr)] = f]
 Push(f) == Append(fr, f)
 Pop == SubSeq(fr, 1, Len(fr) - 1)
 
-MInit == /\ fr = <<Frame(Cfg.g, Cfg.A, Cfg.M, Cfg.af)>>
+MInit == /\ fr = <<Frame(Cfg.g, Cfg.A, Cfg.M, Cfg.af, Cfg.cf)>>
          /\ cur = 0 /\ ret = -1 /\ exc = NoExc /\ q = <<>> /\ done = -1
 
 \* the action Action< Rule > in family af: what the control dispatches after the body matched [beg, cur)
-ActKind(f) == IF f.A = 1 /\ Enabled(f.n) THEN AKindOf(f.n, f.af) ELSE 0
+ActKind(f) == IF f.A = 1 /\ Enabled(f) THEN AKindOf(f.n, f.af) ELSE 0
 UseGuard(f) == ActKind(f) \in {1, 3, 4, 5, 6}         \* has_apply || has_apply0_bool   (2, 7: void apply0 -> no guard)
 \* rewind mode the body gets from match(): optional if match() took the guard, else the requested mode
-BodyM(f) == IF Enabled(f.n) /\ UseGuard(f) THEN 0 ELSE f.M
+BodyM(f) == IF Enabled(f) /\ UseGuard(f) THEN 0 ELSE f.M
 
 -----------------------------------------------------------------------------
 (* Control< Rule >::match and match< Rule >(): entering *)
 Enter ==
    LET f == Top IN
    /\ exc = NoExc /\ done = -1 /\ q = <<>> /\ f.pc = "enter"
-   /\ fr' = SetTop([f EXCEPT !.pc = "body", !.entry = cur, !.mg = IF Enabled(f.n) /\ UseGuard(f) THEN cur ELSE -1])
-   /\ q' = <<EvEn(f.n, f.A, f.M, f.af, cur)>> \o (IF Enabled(f.n) THEN <<EvHook("st", f.n, cur)>> ELSE <<>>)
+   /\ fr' = SetTop([f EXCEPT !.pc = "body", !.entry = cur, !.mg = IF Enabled(f) /\ UseGuard(f) THEN cur ELSE -1])
+   /\ q' = <<EvEn(f.n, f.A, f.M, f.af, f.cf, cur)>> \o (IF Enabled(f) THEN <<EvHook("st", f.n, f.cf, cur)>> ELSE <<>>)
    /\ UNCHANGED <<cur, ret, exc, done>>
 
 \* result of an atom at the cursor: <<matched?, new cursor>>  (one size / peek test, then one bump)
@@ -92,10 +101,13 @@ AtomStep(n) ==
    LET r == D!DenX(D!Lift(n), cur, [A |-> 0, lim |-> N, fam |-> 0, vis |-> 0, eol |-> Cfg.eol, ib |-> Cfg.ib, il |-> Cfg.il, ic |-> Cfg.ic, dep |-> 0], 3)
    IN IF r.k = "T" THEN <<1, r.e>> ELSE <<0, cur>>
 \* rules without sub-rules that match in one step (their peeks and bumps are not modelled individually)
-NonAtoms == {"raise", "apply", "apply0", "opaque", "seq", "sor"}
+NonAtoms == {"raise", "apply", "apply0", "opaque", "seq", "sor", "raw_string"}     \* raw_string calls its helper rules through the control
 IsAtom(n) == Nodes[n].ikids = <<>> /\ Nodes[n].iop \notin NonAtoms
 \* internal rules that are called without being listed in subs_t: found in the table by their shape
 NotAtOf(r) == {m \in 1..Len(Nodes) : Nodes[m].iop = "not_at" /\ Nodes[m].ikids = <<r>> /\ Nodes[m].en = 0}
+
+\* strict / star_strict call internal::seq< Rules... > over all but their first sub-rule
+RestOf(ks) == {m \in 1..Len(Nodes) : Nodes[m].iop = "seq" /\ Nodes[m].ikids = Tail(ks) /\ Nodes[m].en = 0}
 
 \* return from the body with value v (the body's frame stays: match() continues in "after")
 BodyDone(f, v) == /\ fr' = SetTop([f EXCEPT !.pc = "after", !.i = v])
@@ -103,7 +115,7 @@ BodyDone(f, v) == /\ fr' = SetTop([f EXCEPT !.pc = "after", !.i = v])
 
 \* call sub-rule number j of the current frame with modes (A, M)
 CallKid(f, j, A, M, pc2) ==
-   /\ fr' = Append(SetTop([f EXCEPT !.pc = pc2, !.i = j]), Frame(Nodes[f.n].ikids[j], A, M, f.af))
+   /\ fr' = Append(SetTop([f EXCEPT !.pc = pc2, !.i = j]), Frame(Nodes[f.n].ikids[j], A, M, f.af, f.cf))
    /\ ret' = -1
    /\ UNCHANGED <<cur, exc, q, done>>
 
@@ -161,13 +173,13 @@ Body ==
              IF f.pc = "body" THEN CallKid(f, 1, f.A, 0, "k")
              ELSE IF ret = 1 THEN cur' = cur /\ BodyDone(f, 1)
              ELSE /\ exc' = [who |-> ks[1], at |-> cur, cls |-> 1]
-                  /\ q' = <<EvHook("ra", ks[1], cur)>>
+                  /\ q' = <<EvHook("ra", ks[1], f.cf, cur)>>
                   /\ fr' = SetTop([f EXCEPT !.pc = "thrown"])
                   /\ UNCHANGED <<cur, ret, done>>
         \* internal/raise.hpp: Control< T >::raise
         [] op = "raise" ->
              /\ exc' = [who |-> f.n, at |-> cur, cls |-> 1]
-             /\ q' = <<EvHook("ra", Nodes[f.n].ip[1], cur)>>
+             /\ q' = <<EvHook("ra", Nodes[f.n].ip[1], f.cf, cur)>>
              /\ fr' = SetTop([f EXCEPT !.pc = "thrown"])
              /\ UNCHANGED <<cur, ret, done>>
         \* internal/if_must.hpp: Cond with M (required when the default result is success, fix e45e59f), then must< Rules... >
@@ -184,7 +196,7 @@ Body ==
                   THEN IF cur = N THEN /\ cur' = IF f.sv >= 0 THEN f.sv ELSE cur
                                        /\ BodyDone(f, 0)
                        ELSE /\ cur' = cur + 1
-                            /\ fr' = Append(SetTop([f EXCEPT !.pc = "k", !.i = 1]), Frame(ks[1], f.A, 1, f.af))
+                            /\ fr' = Append(SetTop([f EXCEPT !.pc = "k", !.i = 1]), Frame(ks[1], f.A, 1, f.af, f.cf))
                             /\ ret' = -1 /\ UNCHANGED <<exc, q, done>>
              ELSE IF f.i = 1 THEN CallKid(f, 2, f.A, 0, "k")
              ELSE IF ret = 0 THEN /\ cur' = IF f.sv >= 0 THEN f.sv ELSE cur
@@ -215,7 +227,7 @@ Body ==
              ELSE IF ret = 0 THEN cur' = cur /\ BodyDone(f, 1)
              ELSE IF f.lp = mx
                   THEN /\ NotAtOf(ks[1]) # {}
-                       /\ fr' = Append(SetTop([f EXCEPT !.pc = "k", !.lp = mx + 1]), Frame(CHOOSE m \in NotAtOf(ks[1]) : TRUE, f.A, 0, f.af))
+                       /\ fr' = Append(SetTop([f EXCEPT !.pc = "k", !.lp = mx + 1]), Frame(CHOOSE m \in NotAtOf(ks[1]) : TRUE, f.A, 0, f.af, f.cf))
                        /\ ret' = -1 /\ UNCHANGED <<cur, exc, q, done>>
              ELSE CallKid([f EXCEPT !.lp = f.lp + 1], 1, f.A, IF f.lp + 1 <= mn THEN 0 ELSE 1, "k")
         \* internal/if_then_else.hpp: guard< M >; Cond required; Then / Else optional; Else is not tried after Then failed
@@ -224,12 +236,13 @@ Body ==
              ELSE IF f.i = 1 THEN CallKid(f, IF ret = 1 THEN 2 ELSE 3, f.A, 0, "k")
              ELSE /\ cur' = IF ret = 0 /\ f.sv >= 0 THEN f.sv ELSE cur
                   /\ BodyDone(f, ret)
-        \* internal/enable.hpp, disable.hpp, action.hpp: one parameter of the run switched for the sub-tree, M forwarded
-        [] op \in {"enable", "disable", "action"} ->
+        \* internal/enable.hpp, disable.hpp, action.hpp, control.hpp: one parameter of the run switched for the sub-tree, M forwarded
+        [] op \in {"enable", "disable", "action", "control"} ->
              IF f.pc = "body"
              THEN /\ fr' = Append(SetTop([f EXCEPT !.pc = "k", !.i = 1]),
                                   Frame(ks[1], IF op = "enable" THEN 1 ELSE IF op = "disable" THEN 0 ELSE f.A, M,
-                                        IF op = "action" THEN Nodes[f.n].ip[1] ELSE f.af))
+                                        IF op = "action" THEN Nodes[f.n].ip[1] ELSE f.af,
+                                        IF op = "control" THEN Nodes[f.n].ip[1] ELSE f.cf))
                   /\ ret' = -1 /\ UNCHANGED <<cur, exc, q, done>>
              ELSE cur' = cur /\ BodyDone(f, ret)
         \* internal/try_catch_raise_nested.hpp: required guard; sub-rule optional (a caught exception is handled in Unwind)
@@ -242,6 +255,51 @@ Body ==
              IF f.pc = "body" THEN CallKid([f EXCEPT !.sv = IF M = 1 THEN cur ELSE -1], 1, f.A, 0, "k")
              ELSE /\ cur' = IF ret = 0 /\ f.sv >= 0 THEN f.sv ELSE cur
                   /\ BodyDone(f, ret)
+        \* internal/strict.hpp: guard< M >; Rule required; then seq< Rules... > (an internal rule, called through the control,
+        \* not listed in subs_t) optional; Rule failing is success, the rest failing restores
+        [] op = "strict" ->
+             IF f.pc = "body" THEN CallKid([f EXCEPT !.sv = IF M = 1 THEN cur ELSE -1], 1, f.A, 1, "k")
+             ELSE IF f.i = 1
+                  THEN IF ret = 0 THEN cur' = cur /\ BodyDone(f, 1)
+                       ELSE /\ RestOf(ks) # {}
+                            /\ fr' = Append(SetTop([f EXCEPT !.pc = "k", !.i = 2]), Frame(CHOOSE m \in RestOf(ks) : TRUE, f.A, 0, f.af, f.cf))
+                            /\ ret' = -1 /\ UNCHANGED <<cur, exc, q, done>>
+             ELSE /\ cur' = IF ret = 0 /\ f.sv >= 0 THEN f.sv ELSE cur
+                  /\ BodyDone(f, ret)
+        \* internal/star_strict.hpp: the same in a loop; Rule failing ends the loop with success
+        [] op = "star_strict" ->
+             IF f.pc = "body" THEN CallKid([f EXCEPT !.sv = IF M = 1 THEN cur ELSE -1], 1, f.A, 1, "k")
+             ELSE IF f.i = 1
+                  THEN IF ret = 0 THEN cur' = cur /\ BodyDone(f, 1)
+                       ELSE /\ RestOf(ks) # {}
+                            /\ fr' = Append(SetTop([f EXCEPT !.pc = "k", !.i = 2]), Frame(CHOOSE m \in RestOf(ks) : TRUE, f.A, 0, f.af, f.cf))
+                            /\ ret' = -1 /\ UNCHANGED <<cur, exc, q, done>>
+             ELSE IF ret = 1 THEN CallKid(f, 1, f.A, 1, "k")
+             ELSE /\ cur' = IF f.sv >= 0 THEN f.sv ELSE cur
+                  /\ BodyDone(f, 0)
+        \* internal/apply.hpp, apply0.hpp: with actions enabled the listed actions run on an empty match; nothing is consumed
+        [] op \in {"apply", "apply0"} ->
+             LET pp == Nodes[f.n].ip
+                 zero == op = "apply0"
+             IN IF f.A = 1 /\ pp # <<>>
+                THEN /\ cur' = cur
+                     /\ q' = IaEvents(pp, cur, cur, zero)
+                     /\ fr' = SetTop([f EXCEPT !.pc = "after", !.i = IF D!IaAll(pp, 0, zero) THEN 1 ELSE 0])
+                     /\ UNCHANGED <<ret, exc, done>>
+                ELSE cur' = cur /\ BodyDone(f, 1)
+        \* internal/if_apply.hpp: with actions enabled and listed: required guard, sub-rule optional, then the listed actions
+        \* on the matched range, a false one restores; otherwise the sub-rule is simply forwarded to
+        [] op = "if_apply" ->
+             LET pp == Nodes[f.n].ip IN
+             IF f.A = 1 /\ pp # <<>>
+             THEN IF f.pc = "body" THEN CallKid([f EXCEPT !.sv = cur], 1, 1, 0, "k")
+                  ELSE IF ret = 0 THEN cur' = f.sv /\ BodyDone(f, 0)
+                  ELSE LET ok == D!IaAll(pp, cur - f.sv, FALSE) IN
+                       /\ cur' = IF ok THEN cur ELSE f.sv
+                       /\ q' = IaEvents(pp, f.sv, cur, FALSE)
+                       /\ fr' = SetTop([f EXCEPT !.pc = "after", !.i = IF ok THEN 1 ELSE 0])
+                       /\ UNCHANGED <<ret, exc, done>>
+             ELSE IF f.pc = "body" THEN CallKid(f, 1, f.A, M, "k") ELSE cur' = cur /\ BodyDone(f, ret)
 \* plus.hpp resumes its loop under a different label so that "the first attempt" can be told apart
 BodyPlusLoop ==
    LET f == Top IN
@@ -259,7 +317,7 @@ After ==
        throws == v0 = 1 /\ ((kind \in {5, 6} /\ (len + vid) % 3 = 0) \/ (kind = 7 /\ vid % 3 = 0))
        v == IF veto THEN 0 ELSE v0
        av == IF throws THEN 3 ELSE IF kind \in {1, 2, 5, 6, 7} THEN 0 ELSE IF veto THEN 2 ELSE 1
-       actev == IF v0 = 1 /\ Enabled(f.n)
+       actev == IF v0 = 1 /\ Enabled(f)
                 THEN (IF kind \in {1, 3, 5, 6} THEN <<EvAp(f.n, f.af, f.entry, cur, av)>>
                       ELSE IF kind \in {2, 4, 7} THEN <<EvA0(f.n, f.af, cur, av)>>
                       ELSE <<>>)
@@ -271,10 +329,11 @@ After ==
       THEN \* the action throws: parse_error at the begin of the match (kind 6) or a foreign exception (kinds 5, 7)
            /\ exc' = [who |-> IF kind = 6 THEN D!XActParseError ELSE D!XActForeign, at |-> f.entry, cls |-> IF kind = 6 THEN 1 ELSE 3]
            /\ q' = actev
-           /\ fr' = SetTop([f EXCEPT !.pc = "thrown"])
+           \* the body has returned: the rule's own guard is gone, only match()'s guard (if any) is left to restore
+           /\ fr' = SetTop([f EXCEPT !.pc = "thrown", !.sv = -1])
            /\ UNCHANGED <<cur, ret, done>>
       ELSE /\ cur' = c2
-           /\ q' = actev \o (IF Enabled(f.n) THEN <<EvHook(IF v = 1 THEN "su" ELSE "fa", f.n, cur)>> ELSE <<>>) \o <<EvEx(f.n, v, c2)>>
+           /\ q' = actev \o (IF Enabled(f) THEN <<EvHook(IF v = 1 THEN "su" ELSE "fa", f.n, f.cf, cur)>> ELSE <<>>) \o <<EvEx(f.n, v, c2)>>
            /\ IF Len(fr) = 1
               THEN /\ fr' = <<>> /\ done' = v /\ ret' = v
               ELSE /\ fr' = Pop /\ ret' = v /\ UNCHANGED done
@@ -302,7 +361,7 @@ Unwind ==
            \* guard of match() calls Control::unwind, then match()'s guard restores; only then does the observer's catch run
            LET c1 == IF f.sv >= 0 THEN f.sv ELSE cur
                c2 == IF f.mg >= 0 THEN f.mg ELSE c1
-           IN /\ q' = (IF Enabled(f.n) /\ HasUnw THEN <<EvHook("uw", f.n, c1)>> ELSE <<>>) \o <<EvXc(f.n, exc.cls, c2)>>
+           IN /\ q' = (IF Enabled(f) /\ HasUnw(f) THEN <<EvHook("uw", f.n, f.cf, c1)>> ELSE <<>>) \o <<EvXc(f.n, exc.cls, c2)>>
               /\ cur' = c2
               /\ IF Len(fr) = 1
                  THEN fr' = <<>> /\ done' = 2
